@@ -17,6 +17,7 @@ mod port;
 mod props;
 mod runner;
 mod scen;
+mod sched;
 mod tape;
 
 use std::path::PathBuf;
